@@ -64,6 +64,9 @@ func expect(cfg cfgT, d int, lvl int) expectT {
 func monitorCase(c *Ctx, cs *caseT, obs [][]actT) bool {
 	anyFail := false
 	viol := func(key, mon, desc string, k int, exp interface{}) {
+		if cs.Hist != nil {
+			desc += fmt.Sprintf(" [segment %d of a history: the writer was constructed with other filter levels and FilteredLevelWriter.Level was assigned afterwards; cfg shows the levels in force, history the construction and the assignments]", cs.Hist.Seg)
+		}
 		c.Violate(Violation{Key: key, Monitor: mon, Desc: desc, Case: caseJSON(cs, obs),
 			Observed: map[string]interface{}{"event": k, "trace": obs[k]}, Expected: exp})
 	}
